@@ -37,6 +37,21 @@ def call_matches(ctx, site, got, ref_ln, facts=None, lscale=1.0):
     return ctx.close(site, g2, ref, scale=float(np.max(ref)) if ref.size else 1.0, tol=1e-7 * max(1.0, float(lscale)), facts=facts)
 
 
+def elementwise_matches(ctx, site, dens, mu, Sig, facts=None, salt=0):
+    """The element-wise calling convention (point r for component r only) of a density with reference moments (mu, Sig)."""
+    R, D = np.asarray(mu).shape
+    xe = al.points(R, D, salt=salt + 7) * 0.5 + np.asarray(mu) * 0.9
+    ref = np.array([rm.gauss_logpdf(xe[r:r + 1], mu[r], Sig[r])[0] for r in range(R)])
+    with ctx.guard(site + ".call", facts) as g:
+        got = np.asarray(dens.evaluate_ln(J(xe), element_wise=True))
+        gotc = np.asarray(dens(J(xe), element_wise=True))
+    if not g.ok:
+        return False
+    ok = ctx.close(site, got, ref, scale=ln_scale(xe, Sig), facts=facts)
+    ok &= bool(call_matches(ctx, site + "_density", gotc, ref, facts=facts, lscale=ln_scale(xe, Sig)))
+    return ok
+
+
 def ln_scale(x, Sig):
     """max over points and components of x'Sigma^-1 x/2: the natural scale of ln p(x)."""
     out = 1.0
